@@ -65,7 +65,13 @@ def eval_case(ctx, case):
     tree = {f"f{n}.bin": b"\x00" * n for n in sizes}
     tree["d"] = None
     tree["d/inner.txt"] = b"x"
+    # two more files whose times are exactly one hour later / earlier: around the end of daylight saving time they show the
+    # same wall-clock reading as the others, in the other pass of the repeated hour
+    tree["h-later.bin"] = b"l"
+    tree["h-earlier.bin"] = b"e"
     mt = {p: mtime + 0.25 for p in tree}
+    mt["h-later.bin"] += 3600
+    mt["h-earlier.bin"] -= 3600
     mt[""] = mtime + 0.25
     # a file that is reached through a symbolic link is hashed through the link: its record describes the file that was hashed
     import os
@@ -125,7 +131,7 @@ def eval_case(ctx, case):
         if rec["lastmod"] is None:
             V("lastmod-missing", f"{rec['path']} has no lastmodificationdate", kind=rec["kind"])
         else:
-            check_date("lastmodificationdate", rec["lastmod"], mtime + 0.25, 1.0)
+            check_date("lastmodificationdate", rec["lastmod"], mt.get(rec["path"], mtime + 0.25), 1.0)
         for h in rec["hashes"] or rec["content"]:
             if h["hashdate"] is None:
                 V("hashdate-missing", f"{rec['path']} {h['format']} has no hashdate")
